@@ -1,7 +1,18 @@
 from _engine_common import ENG
 PROPERTY = dict(
-    claim=False, na_reason='work in progress',
-    level='other', level_text='findCycle per graph shape', level_note='', bounds='', outside='', stubs='', assumptions=[], explanation='',
+    level='other',
+    level_text='Reduced scope, bounded: the cycle finder of the real engine (BuildEngineImpl::findCycle, and resolveCycle / breakCycle around it) is decided by CBMC for every wait-for graph over 2 and 3 rules, '
+               'one query per graph shape, with the rule keys - which fix the order in which predecessors are explored, hence WHICH cycle is reported - symbolic. '
+               '(Y1) if a cycle is reachable from the requested key the reported list starts at the requested key, every consecutive pair is a real wait-for edge, the last key repeats an earlier one and no key is listed twice before it; if none is reachable the list is empty (no false report). '
+               '(Y2) when the engine is stuck and the cycle cannot be broken, the client is told exactly once, with that list, the build does not go on, and no task is changed.',
+    level_note='Trusted: clang-14 -O1 IR of BuildEngine.cpp, ir2c (validated per query), CBMC 6.11 + MiniSat/CaDiCaL; the real libstdc++ hash containers run unmodified, only std::hash of a pointer is replaced by an injective small number (any function of the pointer is a valid hash). '
+               'NOT decided: that the engine enters resolveCycle exactly when it is stuck (C05/C06 drive executeTasks with resolveCycle stubbed), cycles that run through rules still being SCANNED (paused input requests and deferred scan requests of RuleScanRecords are not constructed: all rules of a query have tasks), '
+               'cycle breaking by forcing a build or supplying a prior value, graphs over more than 3 rules.',
+    bounds='2 and 3 rules, every edge set including self-edges (16 + 512 shapes thorough; 16 + 17 quick, among them the diamonds that separate visited-set bugs); 1-byte keys, pairwise distinct, symbolic',
+    outside='scan-record edges; > 3 rules; delegate-driven cycle breaking; the executeTasks loop around resolveCycle',
+    stubs='getRuleInfoForKey(requested key) -> rule 0; std::hash<Task*>, std::hash<Rule*> -> index of the object; tracing off',
+    assumptions=['the requested key is rule 0 (any other choice is a relabelling of another shape)'],
+    explanation='For each shape the solver decides, over all key orders, that what findCycle returns (and what the client is shown) is a genuine cycle reachable from the requested key, or nothing when there is none.',
 )
 def shapes(n, sample=None):
     out = [{'VF_N': n, 'VF_SHAPE': s} for s in range(1 << (n * n))]
@@ -18,7 +29,7 @@ def stuck(ps):
         if all((s >> (i * n)) & ((1 << n) - 1) for i in range(n)): out.append(dict(p, VF_RESOLVE=1))
     return out
 OBLIGATIONS = [
-    dict(CYC, name='Y1.findCycle', params_quick=shapes(2) + shapes(3, sample=[0, 1, 2, 17, 34, 68, 84, 98, 140, 273, 292, 341, 427, 495, 511]), params_thorough=shapes(2) + shapes(3)),
+    dict(CYC, name='Y1.findCycle', params_quick=shapes(2) + shapes(3, sample=[0, 1, 2, 17, 34, 38, 68, 84, 98, 134, 140, 273, 292, 341, 427, 495, 511]), params_thorough=shapes(2) + shapes(3)),
     dict(CYC, name='Y2.resolveCycle', noinline=['BuildEngineImpl9findCycle', 'BuildEngineImpl12resolveCycle', 'BuildEngineImpl10breakCycle'], expect_functions=['BuildEngineImpl12resolveCycle'],
          params_quick=stuck(shapes(2) + shapes(3, sample=[84, 98, 140, 273, 292, 341, 427, 495, 511])), params_thorough=stuck(shapes(2) + shapes(3))),
 ]
